@@ -116,7 +116,7 @@ theorem deadlock_free_inv (g : Graph) (hg : GraphOK g) (lim : Option Nat) (hl : 
             by_cases h0 : s.expect - 1 = 0 <;> simp [h0]
           | nil =>
             cases hcan : s.cancelled with
-            | true => exact .inr (ex_of_isSome .cCtxDone (by simp [step?, hc, hcs, hcan]))
+            | true => exact .inr (ex_of_isSome .cCtxDone (by simp [step?, hc, hcs, hcan, hm]))
             | false =>
               -- the lost-wake-up case: impossible
               exfalso
@@ -391,7 +391,7 @@ theorem mu_decreases {g : Graph} {lim : Option Nat} {s s' : St} {l : Label} (hg 
     simp only [mu, schedTotal, ha, hc, schedW, subW] at h3 ⊢
     simp only [Bool.false_eq_true, if_true, if_false, reduceIte]
     omega
-  | cCtxDone ha hc _ =>
+  | cCtxDone ha hc _ _ =>
     simp only [mu, schedTotal, ha, hc, schedW]
     simp
 
